@@ -505,10 +505,15 @@ func (w *World) TruncateChecked(n *Node, d *Driver, race bool) {
 		}
 	}
 
-	// (2) every vertex and transaction ever seen confirmed stays retrievable with identical content
+	// (2) every vertex and transaction that was confirmed when the truncation started (a vertex whose only child was
+	// dropped as invalid earlier is tentative again and may itself be dropped) stays retrievable with identical content
 	checked := 0
 	var heldGot, heldRef *accountant.Vertex
-	for h := range n.Seen {
+	lookups := before.Confirmed()
+	for h := range before.Stored {
+		lookups[h] = true
+	}
+	for h := range lookups {
 		ref, ok := w.Hist.Get(h)
 		if !ok {
 			continue
@@ -635,6 +640,20 @@ func (w *World) checkStoredFunds(n *Node, s *Snap) {
 		net := new(big.Int).Sub(f.in, f.out)
 		w.Res.Count("c07_checkpoint_funds_checked", 1)
 		w.NontrivFor("C07", fmt.Sprintf("funds/in=%v/out=%v/net0=%v/extra=%v", f.in.Sign() > 0, f.out.Sign() > 0, net.Sign() == 0, isExtra(w, a)))
+		if f.in.Cmp(MaxVal) > 0 || f.out.Cmp(MaxVal) > 0 {
+			// the flows of this wallet, summed over the checkpointed vertices, do not fit the 64+64 bit amount although
+			// its balance does: the code's running sums refuse the addition and go on (known finding); the address is not
+			// judged on this node from now on
+			have := new(big.Int)
+			if m, ok := s.Funds[a]; ok {
+				have = Val(m)
+			}
+			if have.Cmp(net) != 0 && !n.Tainted[a] {
+				w.Violate("C07", "checkpoint-funds-differ/gross-flow-beyond-2^64", fmt.Sprintf("node %s: checkpointed funds of %s are %s, the net flow of the %d checkpointed vertices is %s (in %s, out %s: the inflow alone exceeds 2^64-1 units)", n.Name, w.NameOf(a), have, len(s.Stored), net, f.in, f.out))
+			}
+			n.Tainted[a] = true
+			continue
+		}
 		if net.Sign() < 0 {
 			// only reachable through the C02 cross-branch finding (a wallet overdrawn over merged branches): the code
 			// then stores the inflow alone; the address is not judged on this node from now on
